@@ -18,6 +18,7 @@ class Runtime:
         self.salt_seq = False  # C07: embed the run's sequence number into the value
         self.gen_messages = False  # C18: generator bodies log while being consumed
         self.special = {}          # C05: slug -> 'mistyped' | 'unserializable' | 'gen-mid' | 'mid' (consumed once)
+        self.dir_symlink = None    # C20: path that generated directory results link to (relative symlink)
         self.mock_values = {}      # C19: values returned by the source tasks that stand in for mocks in the real chain
         self.classes = {}
 
@@ -27,6 +28,7 @@ class Runtime:
         self.fail.clear()
         self.hooks.clear()
         self.special.clear()
+        self.dir_symlink = None
         self.salt_seq = False
         self.gen_messages = False
 
@@ -168,6 +170,13 @@ def encode(kind, d, task):
         (data.dir / 'v.txt').write_text(d)
         (data.dir / 'sub').mkdir(exist_ok=True)
         (data.dir / 'sub' / 'w.bin').write_bytes(b'\x00\x01')
+        if RT.dir_symlink:
+            # a relative link to something outside the result directory (e.g. an input's result): C20
+            import os
+            target = Path(RT.dir_symlink)
+            link = data.dir / 'outside.lnk'
+            if not link.exists() and not link.is_symlink():
+                link.symlink_to(os.path.relpath(target, data.dir))
         return data
     if kind == 'memory':
         obj = RT.classes['MemValue']()
